@@ -169,6 +169,10 @@ def gen_case(rng, tier, g):
     n = rng.choice([None, 0, 1, max(1, k - 1), k, k + 1, 2])
     steps, shape = gen_schedule(rng, nviews=1, maxsteps=40,
                                 nrows_hint=max(k - 1, 2))
+    if rng.random() < 0.2:
+        # cache() can be told to forget what it holds at any moment
+        for _ in range(rng.choice([1, 1, 2])):
+            steps.insert(rng.randint(0, len(steps)), ['CLEARCACHE', 0, 0])
     return {'prop': PROP, 'machine': 'cache', 'view': rng.choice(
         ['cache', 'cache', 'cache', 'wrap']), 'n': n, 'table': table,
         'steps': steps, 'shape': shape}
